@@ -3,6 +3,9 @@
 // built with the real prelude constructors ($newType, $structType, $arrayType, $ptrType, $chanType, ...).
 //   mapkey reset
 //   mapkey deftype <tid> <strhex> <named 0|1> <type> [id] -> hex of typ.string ([id] is for the Lean side)
+//   mapkey enum <arity> <maxlen> <arr|struct|iface-arr|iface-struct>
+//        all tuples of <arity> strings over {$,\,a} up to length <maxlen>, as [n]string / struct{string...} keys (optionally
+//        wrapped in interface{}), bucketed by the REAL key: -> ok <count> | collide <ncollisions> <value>|<value> ... (first 4)
 //   mapkey typeid <tid>                                   -> typ.id of the registered type
 //   mapkey key  <type> <value>                            -> n:<number> | b:<bool> | s:<hex>
 //   mapkey pair <type> <value> <value>                    -> <key1> <key2> <same Map entry 0|1>
@@ -160,6 +163,40 @@ module.exports = function (repo, loadPrelude) {
         const typ = a[3] === '1' ? defineNamed(U.hexToStr(a[2]), under) : under;
         registry[a[1]] = typ;
         return U.strToHex(typ.string);
+      }
+      case 'enum': {
+        const arity = Number(a[1]), maxlen = Number(a[2]), shape = a[3];
+        const alpha = ['$', '\\', 'a'];
+        let strs = [''], cur = [''];
+        for (let l = 1; l <= maxlen; l++) {
+          const nxt = []; for (const x of cur) for (const c of alpha) nxt.push(x + c);
+          cur = nxt; strs = strs.concat(nxt);
+        }
+        const S = G('$String'); const isArr = shape.endsWith('arr'); const wrap = shape.startsWith('iface');
+        let typ;
+        if (isArr) typ = G('$arrayType')(S, arity);
+        else {
+          const fields = [];
+          for (let i = 0; i < arity; i++) fields.push({ prop: 'F' + i, name: 'F' + i, embedded: false, exported: true, typ: S, tag: '' });
+          typ = G('$structType')('', fields);
+        }
+        const E = G('$emptyInterface');
+        const n = strs.length; const idx = new Array(arity).fill(0);
+        const tok = (ix) => (isArr ? 'a' : 't') + arity + ',' + ix.map(i => 's' + U.strToHex(strs[i])).join(',');
+        const seen = new Map(); let count = 0, ncoll = 0; const shown = [];
+        for (;;) {
+          const es = idx.map(i => strs[i]);
+          const v = isArr ? es : new typ.ptr(...es);
+          const k = wrap ? E.keyFor(new typ(v)) : typ.keyFor(v);
+          const prev = seen.get(k);
+          if (prev === undefined) seen.set(k, idx.slice());
+          else { ncoll++; if (shown.length < 4) shown.push(tok(prev) + '|' + tok(idx)); }
+          count++;
+          let p = arity - 1;
+          while (p >= 0 && ++idx[p] === n) { idx[p] = 0; p--; }
+          if (p < 0) break;
+        }
+        return ncoll === 0 ? 'ok ' + count : 'collide ' + ncoll + ' ' + shown.join(' ');
       }
       case 'typeid': { const ty = registry[a[1]]; if (!ty) throw new Error('unknown tid'); return String(ty.id); }
       case 'key': { const typ = parseType(a[1].split(',')); return show(typ.keyFor(value(typ, a[2]))); }
